@@ -27,7 +27,7 @@ def pool():
     return P
 
 
-def useful_rules(pack, gi, group):
+def useful_rules(pack, gi, group, all_accepts=False):
     """Rules of the group that are the priority accept of a state reachable (by a non-empty string) from one of its start states."""
     _, _, dfas, part, start = H.emit_tables(pack, {})
     sc = pack.scindex[group.enter]
@@ -42,7 +42,10 @@ def useful_rules(pack, gi, group):
         while work:
             q = work.pop()
             if d.acc[q]:
-                useful.add(d.acc[q][0])
+                if all_accepts:          # with REJECT every rule of the accepting set can be reached
+                    useful.update(d.acc[q])
+                else:
+                    useful.add(d.acc[q][0])
             for t in d.trans[q]:
                 if t >= 0 and t not in seen:
                     seen.add(t); work.append(t)
@@ -111,7 +114,7 @@ def cannot_match_job(args):
         nr = pack.numbered_rules()
         exp_unmatch = set()
         for gi, g in enumerate(groups_spec):
-            u = useful_rules(pack, gi, g)
+            u = useful_rules(pack, gi, g, all_accepts="--reject" in extra_flags)
             for n, gj, r in nr:
                 if gj == gi and n not in u:
                     exp_unmatch.add(n)
@@ -203,6 +206,24 @@ def run(tier):
             wcheck.append((job, res["scanner"]))
         if len(ck.samples) < 8:
             ck.sample({"spec": job[2], "first_rule_set": job[0][0].label, "expected_unmatchable": sorted(exp)[:6], "warned": sorted(got)[:6]})
+    # REJECT: every matching rule may be reached, flex promises only that it gives no false warning - the same rule sets with --reject:
+    # a warned rule must be one that belongs to no accepting set of any reachable state
+    rj = [(ch, ["--reject"], "rj-%d" % ci) for ci, ch in enumerate(specgen.chunks(gs[:(400 if quick else len(gs))], 20))]
+    nrej = 0
+    for job, res in pmap(cannot_match_job, rj, check=ck):
+        if "worker_exception" in res:
+            ck.broken.append("worker failed on %s: %s" % (job[2], res["worker_exception"]))
+            continue
+        if res["rc"] != 0:
+            ck.violation("C17:flex-failed:" + job[2], "flex --reject failed on a warning spec: " + res["stderr"][-300:], files={"w.l": res["spec"]})
+            continue
+        nrej += len(job[0])
+        exp, got = set(res["expected_unmatchable"]), set(res["warned"])
+        for n in sorted(got - exp):
+            ck.violation("C17:reject:false-warning:%s#%s" % (res["labels"].get(n), res["texts"].get(n)),
+                         "rule set [%s] in a REJECT scanner: rule '%s' is warned as 'cannot be matched' although it matches some input (and REJECT can reach it)" % (
+                             res["labels"].get(n), res["texts"].get(n)), files={"w.l": res["spec"]}, case={"stderr": res["stderr"], "warned": sorted(got)})
+    ck.cov["reject_rule_sets"] = nrej
     # -w silences the warnings and leaves the scanner byte-identical
     for (job, scanner) in wcheck:
         r2 = cannot_match_job((job[0], ["-w"], job[2] + "-w"))
@@ -250,6 +271,6 @@ def run(tier):
                        "about (mapped back through line numbers) must equal the rules that are the priority accept of no state reachable by a "
                        "non-empty string in the reference DFA of any (condition, beginning-of-line) start state; with -s, one rule set per "
                        "specification: warning iff some input reaches the default rule")
-    ck.assumptions += ["rule sets with REJECT or variable trailing context are not in the exact comparison (flex only promises no false warning there)"]
+    ck.assumptions += ["rule sets with REJECT or variable trailing context are judged for false warnings only (that is all flex promises there)"]
     ck.guard(ngroups > 500 and nwarn > 100, "too few rule sets / warnings: %d / %d" % (ngroups, nwarn))
     return ck.finish()
